@@ -196,9 +196,7 @@ DiffAllowed(pre, post, d) ==
     ELSE
     \/ off = mo                                                   \* CurrINF | CurrHF
     \/ off \in InfoSidBytes(mo, pre.ci) \cup InfoSidBytes(mo, post.ci)
-    \/ /\ \E h \in {pre.ch, post.ch} :
-              /\ (h + 1) \in DOMAIN pre.hops
-              /\ off = HopFlagByte(mo, NumInf(pre), h)
-              /\ (pre.hops[h + 1].ia \/ pre.hops[h + 1].ea)
-       /\ FlagsOnlyCleared(d[2], d[3])
+    \* A router that consumes a router-alert flag answers the request (slow path) instead of forwarding
+    \* it; a packet that IS forwarded therefore keeps its flag bytes: a flag cleared on a forwarded
+    \* packet was not consumed by this router (nobody will answer it any more).
 =============================================================================
